@@ -193,6 +193,49 @@ theorem numbering_sorted_clusters {tc er : Bool} {rows : List Row} {cl : List CR
           exact mem_map.mpr ⟨a, mem_filter.mpr ⟨ha1, by simpa using ha2⟩, rfl⟩
         exact ne_nil_of_mem this
 
+/-- **C17 (cluster contents).**  With a cluster file, the kept mutations — exactly those of the
+plain load, so `kept_iff` applies — are distributed over the cluster data points: every kept
+mutation is a member of some data point, and data points have no other members. -/
+theorem cluster_members {tc er : Bool} {rows : List Row} {cl : List CRow} {op : Rat}
+    {ss : List String} {cs : List Cluster} (h : loadClustered tc er rows cl op = .ok (ss, cs)) :
+    ∃ data, load tc er rows = .ok (ss, data) ∧
+      (∀ m ∈ data.map (·.1), ∃ c ∈ cs, m ∈ c.members) ∧
+      (∀ c ∈ cs, ∀ m ∈ c.members, m ∈ data.map (·.1)) := by
+  unfold loadClustered at h
+  cases hl : load tc er rows with
+  | error e => simp [hl] at h
+  | ok res =>
+    obtain ⟨ss', data⟩ := res
+    simp only [hl] at h
+    cases ha : mapE (assignOne (dropDups [] cl)) data with
+    | error e => simp [ha] at h
+    | ok assigned =>
+      simp only [ha, Except.ok.injEq, Prod.mk.injEq] at h
+      obtain ⟨rfl, rfl⟩ := h
+      have hfst : ∀ {d : String × List Entry} {a : String × Nat}, assignOne (dropDups [] cl) d = .ok a → a.1 = d.1 := by
+        intro d a hda
+        unfold assignOne at hda
+        split at hda
+        · cases hda
+        · simp only [Except.ok.injEq] at hda; rw [← hda]
+      refine ⟨data, rfl, ?_, ?_⟩
+      · intro m hm
+        obtain ⟨d, hd, rfl⟩ := mem_map.mp hm
+        obtain ⟨a, ha1, ha2⟩ := mapE_ok_mem ha hd
+        have hcid : a.2 ∈ sortedDistinct natLe (assigned.map (·.2)) :=
+          mem_sortedDistinct.mpr (mem_map.mpr ⟨a, ha1, rfl⟩)
+        rw [← enumFrom_map_snd 0 (sortedDistinct natLe (assigned.map (·.2)))] at hcid
+        obtain ⟨ic, hic, hic2⟩ := mem_map.mp hcid
+        refine ⟨mkCluster (dropDups [] cl) op assigned ic, mem_map.mpr ⟨ic, hic, rfl⟩, ?_⟩
+        unfold mkCluster
+        exact mem_map.mpr ⟨a, mem_filter.mpr ⟨ha1, by simpa using hic2.symm⟩, hfst ha2⟩
+      · intro c hc m hm
+        obtain ⟨ic, _, rfl⟩ := mem_map.mp hc
+        unfold mkCluster at hm
+        obtain ⟨a, ha1, rfl⟩ := mem_map.mp hm
+        obtain ⟨d, hd, hda⟩ := mapE_ok_mem_right ha (mem_filter.mp ha1).1
+        exact mem_map.mpr ⟨d, hd, (hfst hda).symm⟩
+
 /-! ## defaults -/
 
 /-- **C17 (defaults).**  When the table has no `tumour_content` column every entry's tumour
@@ -262,7 +305,8 @@ example : ∃ ss d, loadData false false exRows = .ok (ss, [d]) := by
   refine ⟨["S1", "S2"], (0, "m0", [e0, e1]), ?_⟩
   simp [loadData, h, enumFrom]
 
-/-- `numbering_sorted_clusters`: a successful clustered load -/
+/-- `numbering_sorted_clusters`, `cluster_members`: a successful clustered load (one cluster with a
+kept member; the cluster of the dropped `m1` disappears) -/
 example : ∃ ss cs, loadClustered false false exRows [⟨"m0", 3, none⟩, ⟨"m1", 1, none⟩] (1 / 10000) = .ok (ss, cs) := by
   obtain ⟨e0, e1, h⟩ := ex_load
   refine ⟨["S1", "S2"], clustersOf [⟨"m0", 3, none⟩, ⟨"m1", 1, none⟩] (1 / 10000) [("m0", 3)], ?_⟩
